@@ -31,6 +31,7 @@ Definition init (p : Z) : proc := mkproc p None None [] None 0 0 [].
 Inductive op :=
 | OBegin          (* db_session.__enter__ *)
 | OQuery          (* any statement of the session: prepare_connection_for_query_execution + execute *)
+| OQueryFail      (* a statement at a moment when the DB-API connect fails: if the session has to connect, pool._connect() raises *)
 | OEnd            (* db_session.__exit__: commit or rollback, then release the connection to the pool *)
 | OFail           (* the session's connection is dropped: provider.drop -> pool.drop(con) -> con.close() *)
 | ODisconnect.    (* db.disconnect() outside a session *)
@@ -51,12 +52,29 @@ Definition step (s : proc) (o : op) : proc :=
       | Some c => add [EUse (pid s) c] s                  (* the cached connection is used as it is: no pid check here *)
       | None =>                                           (* SessionCache.connect -> provider.connect -> Pool.connect *)
         let fresh := (pid s, serial s + 1) in
-        let '(pc, pp, fk, is_new) := pool_connect (pid s) (pcon s) (ppid s) (forked s) fresh in
+        let '(pc, pp, fk, is_new, _) := pool_connect true (pid s) (pcon s) (ppid s) (forked s) fresh in
         match pc with
         | Some c => mkproc (pid s) pc pp fk (Some c) (depthc s) (if is_new then serial s + 1 else serial s)
                            (log s ++ (if is_new then [ECreate (pid s) c] else []) ++ [EUse (pid s) c])
         | None => s
         end
+      end
+    end
+  | OQueryFail =>
+    match depthc s with
+    | O => s
+    | S _ =>
+      match ccon s with
+      | Some c => add [EUse (pid s) c] s                  (* no connect needed: the statement runs on the cached connection *)
+      | None =>                                           (* Pool.connect raises out of pool._connect(); the session stays without connection *)
+        let fresh := (pid s, serial s + 1) in
+        let '(pc, pp, fk, _, ok) := pool_connect false (pid s) (pcon s) (ppid s) (forked s) fresh in
+        if ok
+        then match pc with                                (* Pool.connect did not need to connect: it handed out the pooled connection *)
+             | Some c => mkproc (pid s) pc pp fk (Some c) (depthc s) (serial s) (log s ++ [EUse (pid s) c])
+             | None => s
+             end
+        else mkproc (pid s) pc pp fk None (depthc s) (serial s) (log s)
       end
     end
   | OEnd =>
